@@ -326,6 +326,44 @@ fn random_case(u: &mut Choices, sz: Size) -> CaseResult {
     // no parameterised rules (their clauses are reported relative to the call): calls are replaced
     // by a plain clause, the rest is kept
     file.prules.clear();
+    // function-free, and no map-key filters: a key selected by `[ keys == .. ]` is reported with
+    // the path of its map, it is not a value of the document (outside the statement)
+    fn strip_q(q: &mut Query) {
+        q.parts.retain(|p| !matches!(p, Part::KeysFilter { .. }));
+    }
+    fn strip_lets(ls: &mut Vec<Let>) {
+        for l in ls.iter_mut() {
+            match &mut l.value {
+                Expr::Call(_) => l.value = Expr::Query { some: false, q: q_key(&["Resources", "nosuch"]) },
+                Expr::Query { q, .. } => strip_q(q),
+                _ => {}
+            }
+        }
+    }
+    strip_lets(&mut file.lets);
+    for r in file.rules.iter_mut() {
+        strip_lets(&mut r.lets);
+    }
+    visit_cnfs(&mut file, &mut |c| {
+        for l in c.iter_mut() {
+            for it in l.iter_mut() {
+                match it {
+                    Item::Clause(cl) => {
+                        strip_q(&mut cl.q);
+                        if let Kind::Binary { rhs: Expr::Query { q, .. }, .. } = &mut cl.kind {
+                            strip_q(q);
+                        }
+                    }
+                    Item::Block { q, lets, .. } => {
+                        strip_q(q);
+                        strip_lets(lets);
+                    }
+                    Item::When { lets, .. } | Item::TypeBlock { lets, .. } => strip_lets(lets),
+                    _ => {}
+                }
+            }
+        }
+    });
     let mut n = 0;
     visit_cnfs(&mut file, &mut |c| {
         for l in c.iter_mut() {
